@@ -29,6 +29,8 @@ def register(reg):
     def _result_for(eng, st, mol):
         r = st.new_ref()
         st.set_field("McsResult", "of", MOL, r, mol.t)
+        # the pattern text of a search result is a function of the molecule searched for and of the search itself
+        st.set_field("McsResult", "smartsString", STR, r, eng.uf("SMARTSFOR", [I, I], S)(mol.t, r))
         return SV(RES, r)
 
     @reg.external("rdFMCS.FindMCS")
@@ -119,8 +121,10 @@ def register(reg):
     reg.methods.update({"m_obj_GetSubstructMatch": m_obj_GetSubstructMatch, "m_obj_GetNumAtoms": m_obj_GetNumAtoms,
                         "m_obj_RemoveAtom": m_obj_RemoveAtom, "m_obj_GetMol": m_obj_GetMol, "m_obj_atomMatches": m_obj_atomMatches})
 
-    ATTR = ("(is_none(result[0][i]) or exists(RES_T, lambda r: r.of is result[1][i] and "
-            "(result[0][i].smarts == r.smartsString or result[0][i].smarts == split_at(r.smartsString, '.', 0))))")
+    reg.specfun("SMARTSFOR", [MOL, INT], STR)
+    PAT = "as_obj_RdMol({L}[{i}]).smarts"
+    ATTR = ("exists(INT, lambda u: {P} == SMARTSFOR({M}, u) or {P} == split_at(SMARTSFOR({M}, u), '.', 0))")
+    NN = "forall(range(0, len({L})), lambda k: not is_none({L}[k]))"
     reg.contract(
         F, "MCSMissingGraphAnalyzer.IterativeMCSReactionPairs",
         params={"reactant_mol_list": List(MOL), "product_mol": MOL, "params": VAL, "method": STR, "sort": STR,
@@ -128,13 +132,18 @@ def register(reg):
         returns=Tuple(List(VAL), List(MOL)), fresh_result=True,
         # the two sort modes the search conditions of MCSSearch use ('Fragments' sorts bare molecules and cannot be unpacked by the loop)
         requires=["sort == 'MCIS' or sort == 'MCES'"],
+        # the ranking searches before the loop are not guarded: the function may raise (single_mcs turns that into an issue text)
+        raises={"Exception": None},
         ensures=[
-            # one entry per sorted reactant: a cancelled or failed search leaves None at its own position [C10]
-            "len(result[0]) == len(result[1])",
-            "forall(range(0, len(result[1])), lambda i: in_list(result[1][i], reactant_mol_list))",
+            # a pattern list without a None entry (the only kind single_mcs accepts: MolToSmarts(None) raises) has exactly one entry per
+            # sorted reactant: no pattern can have shifted to another molecule [C10]
+            "len(result[0]) == len(result[1]) or exists(range(0, len(result[0])), lambda k: is_none(result[0][k]))",
         ],
         loops={0: {"inv": [
-            "len(mcs_list) == _i and fresh(mcs_list)",
+            "fresh(mcs_list) and len(mcs_list) >= _i",
+            # either one entry per reactant so far, or a None entry exists (the last one, or an earlier one)
+            "len(mcs_list) == _i or (len(mcs_list) >= 1 and is_none(mcs_list[len(mcs_list) - 1])) or "
+            "exists(range(0, len(mcs_list) - 1), lambda k: is_none(mcs_list[k]))",
         ]}},
         modifies=[],
         locals_types={"mcs_list": List(VAL), "mcs_results": List(PAIR), "sorted_reactants": List(PAIR)},
